@@ -65,6 +65,12 @@ func writeCmd(kind int, mk string) []string {
 	}
 }
 
+// bigWriteCmd is a write whose log record is 12-40 KB (past the 10 KiB
+// threshold at which buffered log data is flushed early on some paths).
+func bigWriteCmd(i int, mk string) []string {
+	return []string{"SET", "kbig", mk, "STRING", strings.Repeat("v", 12000+(i%8)*4000)}
+}
+
 var detachCmds = [][]string{
 	{"SUBSCRIBE", "ch"},
 	{"PSUBSCRIBE", "ch*"},
@@ -83,7 +89,8 @@ func fileHas(path, mk string) bool {
 }
 
 type bbCase struct {
-	Kinds  []int `json:"kinds"`  // write kinds of the pipelined segment (-1: GET of a large value, reply 20-70 KB)
+	Kinds  []int `json:"kinds"`  // write kinds of the pipelined segment (-1: GET of a large value, reply 20-70 KB; 8..15: a write whose log record is 12-40 KB)
+	Shrink bool  `json:"shrink"` // AOFSHRINK is run to completion right before the segment is sent
 	Detach int   `json:"detach"` // -1: none, else index into detachCmds appended to the segment
 	Split  bool  `json:"split"`  // send each command as its own segment
 	Sleep  bool  `json:"sleep"`  // the segment ends with SLEEP 0.05 (holds the shared lock: keeps the batch open)
@@ -106,6 +113,9 @@ func runBlackBox(t ev.Failer, c *ev.Collector, srv *t38.Srv, bc bbCase) {
 		mk := ""
 		if k < 0 {
 			cmd = []string{"GET", "big", []string{"blob", "blob2"}[i%2]}
+		} else if k >= 8 {
+			mk = marker()
+			cmd = bigWriteCmd(k, mk)
 		} else {
 			mk = marker()
 			cmd = writeCmd(k, mk)
@@ -116,6 +126,33 @@ func runBlackBox(t ev.Failer, c *ev.Collector, srv *t38.Srv, bc bbCase) {
 	}
 	if bc.Sleep {
 		seg = append(seg, t38.EncodeCmd("SLEEP", "0.05")...)
+	}
+	if bc.Shrink {
+		// rewrite the log and wait for the swap: afterwards the file is smaller
+		// than any position remembered from before
+		// overwrites first, so that the rewritten file really is smaller
+		var junk []byte
+		for i := 0; i < 150; i++ {
+			junk = append(junk, t38.EncodeCmd("SET", "junk", "same", "FIELD", "n", fmt.Sprint(i+1), "POINT", "5", "5")...)
+		}
+		if err := conn.SendRaw(junk); err != nil {
+			c.Fail(t, "c08-harness", err.Error(), bc)
+		}
+		for i := 0; i < 150; i++ {
+			if _, err := conn.Recv(); err != nil {
+				c.Fail(t, "c08-harness", err.Error(), bc)
+			}
+		}
+		if v, err := conn.Do("AOFSHRINK"); err != nil || v.IsErr() {
+			c.Fail(t, "c08-harness", fmt.Sprintf("AOFSHRINK: %v %v", v, err), bc)
+		}
+		time.Sleep(3 * time.Millisecond)
+		for i := 0; i < 5000; i++ {
+			if _, err := os.Stat(srv.AOFPath() + "-shrink"); os.IsNotExist(err) {
+				break
+			}
+			time.Sleep(time.Millisecond)
+		}
 	}
 	if bc.Detach >= 0 {
 		seg = append(seg, t38.EncodeCmd(detachCmds[bc.Detach]...)...)
@@ -163,7 +200,8 @@ func TestC08_BlackBox(t *testing.T) {
 	ev.Rapid("blackbox", ev.Pick(1000, 20000))
 	rapid.Check(t, func(rt *rapid.T) {
 		bc := bbCase{
-			Kinds:  rapid.SliceOfN(rapid.IntRange(-2, 7), 1, 12).Draw(rt, "kinds"),
+			Kinds:  rapid.SliceOfN(rapid.IntRange(-2, 9), 1, 12).Draw(rt, "kinds"),
+			Shrink: rapid.IntRange(0, 11).Draw(rt, "shrink") == 0,
 			Detach: rapid.IntRange(-4, len(detachCmds)-1).Draw(rt, "detach"),
 			Split:  rapid.IntRange(0, 5).Draw(rt, "split") == 0,
 			Sleep:  rapid.IntRange(0, 3).Draw(rt, "sleep") == 0,
@@ -192,7 +230,13 @@ func TestC08_BlackBox(t *testing.T) {
 				big = true
 			} else {
 				writes++
+				if k >= 8 {
+					c.Label("large-write-in-segment")
+				}
 			}
+		}
+		if bc.Shrink {
+			c.Label("segment-right-after-aofshrink")
 		}
 		if big {
 			c.Label("large-reply-in-segment")
@@ -201,7 +245,7 @@ func TestC08_BlackBox(t *testing.T) {
 			c.Label("segment-held-open-by-sleep")
 		}
 		if writes >= 2 || big || bc.Detach >= 0 {
-			c.NonTrivial(fmt.Sprint(bc))
+			c.NonTrivial(fmt.Sprint(bc.Kinds, bc.Detach, bc.Split, bc.Sleep, bc.Shrink))
 			c.Sample(bc)
 		}
 	})
